@@ -79,4 +79,12 @@ AreasDocumented ==
   (shape.k = "rect" /\ shape.r[3] >= 1 /\ shape.r[4] >= 1 /\ shape.r[3] - 2 * InsideW(st) >= 1 /\ shape.r[4] - 2 * InsideW(st) >= 1) =>
     /\ RectStrokeArea(shape.r, st) = Grow(shape.r, OutsideW(st))
     /\ RectFillArea(shape.r, st) = Grow(shape.r, -InsideW(st))
+\* C02 at the design level (checked in every state, i.e. for every prefix of the call sequence): what has been painted
+\* lies inside the transcribed styled_bounding_box() = bounding_box().offset(outside stroke width)
+\* (rectangle/styled.rs:291, circle/styled.rs:145), and a transparent style paints nothing
+StyledBox == Offset(IF shape.k = "rect" THEN shape.r ELSE <<shape.tl[1], shape.tl[2], shape.d, shape.d>>, OutsideW(st))
+\* negative control (cfg: StyledBox <- BoxWithoutStroke): the stroke forgotten
+BoxWithoutStroke == IF shape.k = "rect" THEN shape.r ELSE <<shape.tl[1], shape.tl[2], shape.d, shape.d>>
+InsideStyledBox == DOMAIN fb \subseteq PointsOf(StyledBox)
+TransparentPaintsNothing == IsTransparent(st) => fb = EmptyFb
 =============================================================================
